@@ -1,3 +1,5 @@
 import VC2.Prelude
 import VC2.Gen.Kernels
 import VC2.Gen.Dispatch
+import VC2.Props.C12
+import VC2.Props.C13
